@@ -9,8 +9,8 @@ use pico_macros::memo;
 use prelude::{ErrClone, Postfix};
 
 use crate::{
-    CompilationProfile, EntrypointDeclarationInfo, IsographDatabase, flattened_entity_named,
-    parse_iso_literal_in_source, selectable_is_not_defined_diagnostic,
+    CompilationProfile, EntrypointDeclarationInfo, IsographDatabase, NetworkProtocol,
+    flattened_entity_named, parse_iso_literal_in_source, selectable_is_not_defined_diagnostic,
     selectable_is_wrong_type_diagnostic, selectable_named,
 };
 
@@ -63,6 +63,30 @@ pub fn validated_entrypoints<TCompilationProfile: CompilationProfile>(
                 )
                 .wrap_err(),
                 Some(DefinitionLocation::Client(SelectionType::Scalar(_))) => {
+                    // An entrypoint must be declared on a root type. (Other fetchable types are
+                    // fetched through a wrapping query, e.g. `node(id: $id)`, whose variables
+                    // an entrypoint declaration cannot supply.)
+                    let parent_entity_name = entrypoint_declaration_info.parent_type.item.0;
+                    let query_root_entity_name =
+                        TCompilationProfile::NetworkProtocol::get_query_root_entity(
+                            db,
+                            parent_entity_name,
+                        )?;
+                    if query_root_entity_name != parent_entity_name {
+                        return Diagnostic::new(
+                            format!(
+                                "Entrypoints can only be declared on root types, \
+                                but `{parent_entity_name}` is fetched through `{query_root_entity_name}`."
+                            ),
+                            entrypoint_declaration_info
+                                .parent_type
+                                .location
+                                .to::<Location>()
+                                .wrap_some(),
+                        )
+                        .wrap_err();
+                    }
+
                     Ok(EntrypointDeclarationInfo {
                         iso_literal_text: entrypoint_declaration_info.iso_literal_text,
                         directive_set: from_isograph_field_directives(
